@@ -223,6 +223,10 @@ def run(tier, seed, replay=None):
                  'image': (0.0, 0.0), 'real': True}]
     else:
         cfgs = [f(ctx.rng) for f in CONFIGS for _ in range(per)]
+        for c in cfgs:
+            if ctx.rng.random() < 0.4:      # the same system reached through set_radius / set_conic
+                c['desc']['via_setters'] = True
+                c['name'] += ' (via setters)'
     for cfg in cfgs:
         ctx.case({'config': cfg['name'], 'params': cfg['params']})
         mc = check_config(ctx, cfg, quick)
